@@ -6,8 +6,9 @@ import spec_c13
 # filled from coq/Props/C13.v (every Theorem there)
 THEOREMS = [
     "C13_poseidon_fast_eq_spec", "C13_partial_rounds_fast_eq_naive", "C13_poseidon_naive_eq_spec",
-    "C13_constants_canonical", "C13_mds_freq_correct", "C13_mds_layer_impl_correct",
+    "C13_constants_canonical", "C13_mds_freq_correct", "C13_mds_layer_impl_correct", "C13_mds_layer_generic_correct",
     "C13_poseidon_impl_eq_spec",
+    "C13_shared_spec_is_poseidon_fp", "C13_poseidon_impl_eq_shared_spec", "C13_shared_sponge_is_sponge",
     "C13_hash_no_pad_is_overwrite_sponge", "C13_compress_is_sponge_on_8",
     "C13_recursive_challenger_eq_native", "C13_observe_chunking_irrelevant", "C13_no_stale_output",
     "C13_challenger_never_panics", "C13_challenger_state_is_sponge",
